@@ -47,6 +47,7 @@ type Config struct {
 	Strategy     Strategy
 	MaxSteps     int  // horizon (0 = 2_000_000)
 	YieldAtomics bool // atomics loads are scheduling points too
+	SelectLast   bool // the default pick among several ready select cases is the last one in source order (not the first)
 	Trace        bool
 	Epoch        time.Time
 }
@@ -487,6 +488,11 @@ func (s *Sched) execChan(g *G, p *pending) {
 		}
 		s.finish("abort", "vsched internal: scheduled a blocked channel operation "+describePending(p))
 		s.die()
+	}
+	if s.cfg.SelectLast {
+		for i, j := 0, len(ready)-1; i < j; i, j = i+1, j-1 {
+			ready[i], ready[j] = ready[j], ready[i]
+		}
 	}
 	k := 0
 	if len(ready) > 1 {
